@@ -74,7 +74,7 @@ pub fn decode_c17(data: &[u8]) -> crate::c17::Case {
         _ => LANGS[(b1 / 8) % LANGS.len()],
     };
     let text = bounded_text(data.get(2..).unwrap_or(&[]));
-    crate::c17::Case { input: crate::c17::Input::Free(lang.to_string(), text) }
+    crate::c17::Case { input: crate::c17::Input::Free(lang.to_string(), text), seps: 0 }
 }
 
 thread_local! {
